@@ -286,7 +286,9 @@ func (it *indexedMessageIterator) loadChunk(chunkIndex *ChunkIndex) error {
 		copy(chunkSlot.buf, parsedChunk.Records)
 	case CompressionZSTD:
 		if it.zstdDecoder == nil {
-			it.zstdDecoder, err = zstd.NewReader(nil)
+			// DecodeAll sizes its output by the content size the zstd frame header declares;
+			// hold it to the same ceiling as every other buffer.
+			it.zstdDecoder, err = zstd.NewReader(nil, zstd.WithDecoderMaxMemory(math.MaxInt32))
 			if err != nil {
 				return fmt.Errorf("failed to instantiate zstd decoder: %w", err)
 			}
